@@ -355,7 +355,8 @@ class Ctx:
         """matcher_tags: set of strings describing the minimised case; an open
         known finding matches when its 'matcher' is among them."""
         for k in self.known:
-            if k.get("status") == "open" and k["matcher"] in matcher_tags:
+            ms = k["matcher"] if isinstance(k["matcher"], list) else [k["matcher"]]
+            if k.get("status") == "open" and any(m in matcher_tags for m in ms):
                 return k
         return None
 
@@ -407,6 +408,13 @@ class Ctx:
                 self.broke("extraction:%s" % failingd, logd[-3000:])
             return ok and okd
 
+    def _tag_counts(self):
+        out = {}
+        for v in self.violations:
+            for t in v.get("tags", []):
+                out[t] = out.get(t, 0) + 1
+        return out
+
     # -- finish ----------------------------------------------------------
     def finish(self, rule, assumptions, trusted_extra=(), level="proof", exhaustive=False, extra=None):
         os.makedirs(os.path.join(VERIF, "replays"), exist_ok=True)
@@ -447,6 +455,7 @@ class Ctx:
             "input_distribution": self.dist,
             "generators": self.generators,
             "known_findings_hit": [k["id"] for k in self.known_hits],
+            "violation_tags": self._tag_counts(),
             "exhaustive": exhaustive,
             "notes": self.notes,
         }
